@@ -20,7 +20,7 @@ claim(
 
 claim(
     "C19",
-    "Static: decides the index bookkeeping behind composition of surfaces for all surface lists and mesh sizes: running offsets start at 0, advance by exactly the width of the block they address (polynomial identity; index blocks offset + [lo, hi) stay below the advance for all mesh sizes >= 2), blocks tile axes of length sum-of-advances, per-surface values do not leak from one loop into a later loop or into a scalar attribute used for every surface, totals over the surface list are accumulated commutatively and never overwritten, every surface key the aerodynamic subsystems read is copied for multi-section surfaces, and the MPhys wrapper groups map the same flight-condition inputs onto MPhys names in every option valuation. Does not decide permutation / splitting invariance of numerical results.",
+    "Static: decides the index bookkeeping behind composition of surfaces for all surface lists and mesh sizes: running offsets start at 0, advance by exactly the width of the block they address (polynomial identity; index blocks offset + [lo, hi) stay below the advance for all mesh sizes >= 2), blocks tile axes of length sum-of-advances, per-surface values do not leak from one loop into a later loop or into a scalar attribute used for every surface, totals over the surface list are accumulated commutatively and never overwritten, every surface key the aerodynamic subsystems read is copied for multi-section surfaces, the MPhys wrapper groups map the same flight-condition inputs onto MPhys names in every option valuation, and the (de)multiplexers assign (never accumulate into) their outputs. Does not decide permutation / splitting invariance of numerical results.",
     TB,
     "symbolic prefix-sum analysis of running offsets (loop-carried symbolic integers, uninterpreted linear SUM over the list) and def-use analysis of per-element values across loops",
     "DESIGN.md section 2 C19",
@@ -56,7 +56,7 @@ claim(
 )
 claim(
     "C20",
-    "Static: decides that each documented invalid set-up reaches a raise on every path (must-pass-through), that the entry groups validate dictionary keys and the validators warn, that no store / in-place operation reaches an alias of a user array (surface / options values, helper arguments), that no key of a user dictionary is assigned, that numeric defaults are taken by key presence (an admissible 0 is kept), that there is no unseeded random source or shared mutable state, and that the viscous-drag formula is finite at both ends of the documented laminar-fraction range. Does not decide finiteness of outputs in general.",
+    "Static: decides that each documented invalid set-up reaches a raise on every path (must-pass-through), that the entry groups validate dictionary keys and the validators warn, that no store / in-place operation reaches an alias of a user array (surface / options values, helper arguments), that no key of a user dictionary is assigned, that numeric defaults are taken by key presence (an admissible 0 is kept), that there is no unseeded random source or shared mutable state, that every output is completely rewritten on every evaluation (nothing left over from a previous run), and that the viscous-drag formula is finite at both ends of the documented laminar-fraction range. Does not decide finiteness of outputs in general.",
     TB,
     "must-pass-through checks on the AST, alias/effect analysis over the abstract interpreter's store events",
     "DESIGN.md section 2 C20",
